@@ -230,24 +230,10 @@ Fixpoint newly_finalized (a b : list (option pobs)) : Z :=
    3 = C14.negative_fund_amount: code 3 on a proposal that received a successful negative contribution / withdrawal;
    4 = C14.pass_percentage_drift: code 2 / 12 on a proposal that received a vote tallied with an option percentage
        different from its own *)
-Definition classify (code : Z) (i : Z) (bi : binfo) (neg drift : list N) (nfin : Z) (pa pb : option pobs) : Z :=
-  if (code =? 3) && bool_decide (Z.to_N i ∈ neg) then 3
-  else if ((code =? 2) || (code =? 12)) && bool_decide (Z.to_N i ∈ drift) then 4
-  else if (code =? 10) && negb (rank_obs pa =? 4) then
-    match pb with
-    | Some p =>
-        if (2 <=? nfin) ||
-           forallb (fun av => (av.2 <? 0) || bool_decide ((Z.to_N i, av.1) ∈ bi_contrib bi))
-                   (zip (idx (length (ob_indiv p))) (ob_indiv p))
-        then 2 else 0
-    | None => 0
-    end
-  else if ((code =? 2) || (code =? 1)) then
-    match pb with
-    | Some p => if (8 <=? ob_stores p) && has_survivors p && (ob_total p =? 0) then 2 else 0
-    | None => 0
-    end
-  else 0.
+(* class of a violation: all former classes (1 public_expire_votes, 2 stale_fund_records, 3 negative_fund_amount,
+   4 pass_percentage_drift) belonged to findings repaired in /repo (0988205, d859128, 65cdcf3 / 7960770, c39c303):
+   every monitor hit is now unexplained (class 0) *)
+Definition classify (code : Z) (i : Z) (bi : binfo) (neg drift : list N) (nfin : Z) (pa pb : option pobs) : Z := 0.
 
 Fixpoint props_viol (bi : Z) (h : Z) (i : Z) (info : binfo) (neg drift : list N) (nfin : Z) (a b : list (option pobs)) : list Z :=
   match b with
